@@ -524,6 +524,12 @@ def gen_c18(rng, tier):
         out.append(gen_sched.gen_sched_L(rng))
     for i in range(n // 10):
         out.append(gen_sched.gen_sched_H(rng))
+    # free-running threads (no scheduler) on shared trees without caches: lazy decode of binary
+    # leaves, lazy sort of ReplaceSource, composites of them
+    fcf = [gen_tree.Cfg(ascii=True, cached=0.0, warm=0.0, bufs=0.5), gen_tree.Cfg(ascii=True, cached=0.0, warm=0.0, replace=0.4, bufs=0.3),
+           gen_tree.Cfg(ascii=False, cached=0.0, warm=0.0, bufs=0.5, invalid_utf8=0.3), gen_tree.Cfg(ascii=True, cached=0.0, warm=0.0, sms=0.3, inner=0.3)]
+    for i in range(n // 5):
+        out.append(gen_hist.gen_fhist_case(rng, fcf[i % len(fcf)]))
     innerh = ('orig', 'a;b\nc', 'f0.js')
     for progs, steps in (([['h'], ['h']], [2, 2]), ([['h', 'h'], ['h']], [3, 2]), ([['h'], ['h'], ['h']], [2, 2, 2])):
         for sch in sorted(gen_sched.all_interleavings(steps))[::(3 if tier == 'quick' else 1)]:
@@ -552,10 +558,11 @@ def gen_c18(rng, tier):
     return out
 
 C18 = Spec('C18',
-    kinds={'sched': {'ser': gen_sched.ser_sched, 'proj': None, 'shrink': gen_sched.shrink_sched}},
+    kinds={'sched': {'ser': gen_sched.ser_sched, 'proj': None, 'shrink': gen_sched.shrink_sched},
+           'fhist': {'ser': gen_hist.ser_fhist, 'proj': None, 'shrink': gen_hist.shrink_fhist}},
     gen=gen_c18, normalize=gen_sched.normalize,
-    rule='2-3 threads with 1-3 operations each over a shared ReplaceSource (observers that sort lazily, clone; cold, sorted or stale index) or a shared CachedSource and clones of it (map and stream in all option sets); random schedules at the granularity of the schedule points before each shared-state access, plus all interleavings of small programs (observer vs clone on a stale index; map vs stream on a cold cache); lock-probe cases park a thread inside the critical section of the stream fill path (before its insert) and let the others run into the held shard lock; hash-probe cases park a thread inside the Hash callback of a user-defined child, i.e. inside the one-time initialisation of CachedSource::hash, while other threads hash clones',
-    explanation='Sem/Conc.v is an interleaving semantics with one step per shared-state access (Sem/ConcLock.v: the stream fill path as acquire / store-and-release with blocking); the harness executes the same schedule on real threads parked at the hook-H3 schedule points and the per-thread site traces, all results, the final flag/index and the storage identity of every cache entry after every step are compared with the model; chk_C18_* : every result equals the sequential answer, every clone satisfies the object invariant, cache entries are write-once',
+    rule='2-3 threads with 1-3 operations each over a shared ReplaceSource (observers that sort lazily, clone; cold, sorted or stale index) or a shared CachedSource and clones of it (map and stream in all option sets); random schedules at the granularity of the schedule points before each shared-state access, plus all interleavings of small programs (observer vs clone on a stale index; map vs stream on a cold cache); lock-probe cases park a thread inside the critical section of the stream fill path (before its insert) and let the others run into the held shard lock; hash-probe cases park a thread inside the Hash callback of a user-defined child, i.e. inside the one-time initialisation of CachedSource::hash, while other threads hash clones; free-running cases: 2-4 threads released together (no scheduler) run observer programs on ONE shared tree without CachedSource nodes (binary leaves with their lazy decode, ReplaceSource with its lazy sort, SourceMapSources, composites), every answer compared with a freshly built object',
+    explanation='Sem/Conc.v is an interleaving semantics with one step per shared-state access (Sem/ConcLock.v: the stream fill path as acquire / store-and-release with blocking); the harness executes the same schedule on real threads parked at the hook-H3 schedule points and the per-thread site traces, all results, the final flag/index and the storage identity of every cache entry after every step are compared with the model; chk_C18_* : every result equals the sequential answer, every clone satisfies the object invariant, cache entries are write-once; free-running cases: Sem/ConcFree.v - the model runs the thread-major interleaving, C18_free_running_observers shows every interleaving gives every thread the same answers, chk_hist compares each answer with the fresh object\'s',
     checker_name='ApiSched.chk_C18_replace / chk_C18_cached', model_name='Sem/Conc.v, Sem/ConcLock.v')
 
 C12.xcheck = xcheck.codec_crosscheck
